@@ -53,7 +53,9 @@ func DecodeMetadata(input any, result any) error {
 	if v.Kind() == reflect.Struct {
 		f := v.FieldByName("Properties")
 		if f.IsValid() && f.Kind() == reflect.Map {
-			input = f.Interface().(map[string]string)
+			if props, ok := f.Interface().(map[string]string); ok {
+				input = props
+			}
 		}
 	}
 
